@@ -544,7 +544,7 @@ def job_colours(res, L_, spec):
                             elif fmt == 'pdf':
                                 bt.holds('background==light-colour-on-the-whole-page', label, z3.And(f[0] <= 0, f[1] <= 0, f[0] + f[2] >= W_, f[1] + f[3] >= H_, colour_eq(fmt, f[4], colour_spec(fmt, light))))
                             else:
-                                bt.holds('background==light-colour-on-the-whole-page', label, z3.And(f[2] >= W_, f[3] >= H_, f[5] == f[2], z3.BoolVal(f[4] == colour_spec(fmt, light)),
+                                bt.holds('background==light-colour-on-the-whole-page', label, z3.And(f[2] >= W_, f[3] >= H_, f[5] == f[2], z3.BoolVal(svg_same_colour(f[4], colour_spec(fmt, light))),
                                                                                                      z3.BoolVal(doc['order'][0] == 'fill' or True)))
             one(res, L_, fmt, M, (21, 21), SNum(B), scale, [B >= 0], {'B': B}, f'{fmt} colours {cfg} scale {scale}', extra_kw=cfg, hook=hook)
     res.sample({'case': spec['name'], 'colours': [str(c) for c in cfgs]})
@@ -564,11 +564,22 @@ def colour_spec(fmt, c):
     return tuple(Fraction(v, 255) for v in rgba[:3])
 
 
+def svg_same_colour(got, want):
+    """SVG colour texts denote the same colour (the writer may choose the shortest spelling, e.g. red for #f00)"""
+    from .c09 import ref_rgba
+    if got is None:
+        return False
+    try:
+        return ref_rgba(got)[:3] == ref_rgba(want)[:3]
+    except Exception:
+        return got == want
+
+
 def colour_eq(fmt, got, want):
     if fmt == 'tex':
         return z3.BoolVal(got == want)
     if fmt == 'svg':
-        return z3.BoolVal(got is not None and got[0] == want and got[1] is None)
+        return z3.BoolVal(got is not None and svg_same_colour(got[0], want) and got[1] is None)
     # PostScript / PDF: three reals, compared with the tolerance of the 6-digit formatting
     terms = []
     for g, w in zip(got, want):
@@ -690,6 +701,24 @@ def concrete_segments(fmt, data, M, border, scale, kw):
         if (x1, x2, ym, wd) != ((c + b) * s, (c + ln + b) * s, ey, s):
             bad.append(f'run row {r} col {c} len {ln}: segment {float(x1)}..{float(x2)} at y {float(ym)} width {float(wd)}; expected {float((c + b) * s)}..{float((c + ln + b) * s)} at {float(ey)} width {float(s)}')
             break
+    # colours
+    want_d = colour_spec(fmt, kw.get('dark', 'black' if fmt == 'tex' else '#000'))
+    for sg in segs_:
+        got = sg[4]
+        if fmt in ('eps', 'pdf'):
+            okc = all(abs(val(g) - w) < Fraction(1, 100000) for g, w in zip(got, want_d))
+        elif fmt == 'svg':
+            okc = got is not None and svg_same_colour(got[0], want_d)
+        else:
+            okc = got == want_d
+        if not okc:
+            bad.append(f'stroke colour {got if not isinstance(got, tuple) or fmt == "svg" else [float(val(g)) for g in got]} != requested {want_d if fmt in ("svg", "tex") else [float(w) for w in want_d]}')
+            break
+    if kw.get('light') is not None and fmt in ('eps', 'pdf') and doc['fills']:
+        fc = doc['fills'][0][1] if fmt == 'eps' else doc['fills'][0][4]
+        wl = colour_spec(fmt, kw['light'])
+        if not all(abs(val(g) - w) < Fraction(1, 100000) for g, w in zip(fc, wl)):
+            bad.append(f'background colour {[float(val(g)) for g in fc]} != requested {[float(w) for w in wl]}')
     if kw.get('light') is not None and fmt in ('svg', 'eps', 'pdf'):
         if not doc['fills']:
             bad.append('no background fill for the requested light colour')
